@@ -112,6 +112,11 @@ Emit ==
 Next == Choose \/ Step \/ Emit
 Spec == Init /\ [][Next]_vars
 
+\* C17 as a liveness property of the model: under weak fairness of the scanner's steps every scan ends with a verdict
+\* (no parameter loop can run forever)
+FairSpec == Spec /\ WF_vars(Next)
+Termination == <>(phase = "done")
+
 \* the step machine computes the declarative verdict
 MachineMeetsTable == (phase = "scan" /\ st.verdict # "scanning") => st.verdict = Verdict(ctx, meta)
 \* C17 at the level of the model: the scanner always terminates with ok or err
@@ -173,6 +178,11 @@ ContextsMore ==
     Ctx("enum", "field", {"Default"}, "key", FALSE, FALSE, {}, "enum2_nobuild"),
     Ctx("enum", "variant", {"Default"}, "key", TRUE, TRUE, {}, "enum1_named_texpr") }
 
+\* a small instance for the liveness check (TLC's liveness algorithm does not scale to the full injection space)
+ContextsLive == { Ctx("struct", "field", E1, "key", TRUE, FALSE, {}, "struct_named"),
+                  Ctx("enum", "variant", E1, "key", TRUE, FALSE, {}, "enum1_named"),
+                  Ctx("struct", "type", {"Into"}, "pos", TRUE, FALSE, {"Into"}, "into1_struct") }
+ValsLive == {"ident", "int", "bool_t", "str_preds"}
 ContextsQuickAll == ContextsQuick \cup ContextsInto \cup ContextsAlone
 
 ValsQuick == {"bool_t", "bool_f", "ident", "str_ident", "str_empty", "int", "negint", "path2", "preds", "str_preds", "star", "call",
